@@ -8,6 +8,10 @@ ASSUMPTIONS = [
     "double quote, backslash (what git C-quotes in line-oriented output) - no control characters (the listing is read from lines)",
     "declared nodes are generated as plain Path, PickleNode, a user-defined class implementing the PPathNode protocol, and "
     "DataCatalog entries registered with an explicit path / PickleNode; all of them are 'declared dependencies or products'",
+    "file names are abstract strings in the Lean model (`Name = List Char`, equality only): how git's byte output is decoded and "
+    "compared with the names Path.iterdir() returns is NOT modelled; it is covered by the differential `bytes` stream only "
+    "(files created through os.fsencode with names that are not valid UTF-8, tracked / staged / untracked, real subprocess, "
+    "names compared as bytes with `git ls-files -z`); an abort with non-zero exit that removes nothing tracked is accepted there",
     "tie: Properties/CleanTie.lean proves the hand-written model equal to interpreters of the control structure extracted "
     "from clean.py (extract_cleangen.py) - semantic check per function, so equivalent rewritings keep it, changes of meaning break it",
     "task modules are collected from the given paths only; 'declared' means declared by a collected task",
@@ -43,7 +47,10 @@ def replay(ctx, obj):
         case = inp["case"]
         obs = clean_api.run_workers([case])
         pending = []
-        clean_api.judge(ctx, case, obs[case["id"]], pending)
+        if case.get("stream") == "bytes":
+            clean_api.judge_bytes(ctx, case, obs[case["id"]])
+        else:
+            clean_api.judge(ctx, case, obs[case["id"]], pending)
         clean_api.compare_model(ctx, pending)
     elif kind == "exh":
         job = {"tree": inp["tree"], "assign": [[inp["known"], inp["excluded"], inp["dirs"]]]}
